@@ -986,7 +986,7 @@ theorem gen_header_quote_eq_model (o : Opts) (h : List Char) :
     initial state, `LineBreak()` after `scan(b)` is `firstBreak` of `b` ("" when there is none: the session
     default stays). -/
 theorem gen_detector_first_line_break (b : List Nat) :
-    lineBreak (scan {} b) = firstBreak false false b := by
+    lineBreak (scan {} b) = Json.firstBreak false false b := by
   have : scan {} b = scanLoop {} b := by simp [scan]
   rw [this]
   exact scanLoop_spec b {} ⟨rfl, rfl, fun _ => rfl⟩
@@ -997,7 +997,7 @@ theorem gen_detector_chunks (d : Det) (a b : List Nat) : scan (scan d a) b = sca
   scan_append d a b
 
 theorem gen_detector_reads (chunks : List (List Nat)) :
-    lineBreak (chunks.foldl scan {}) = firstBreak false false chunks.flatten := by
+    lineBreak (chunks.foldl scan {}) = Json.firstBreak false false chunks.flatten := by
   have h : ∀ (cs : List (List Nat)) (d : Det), cs.foldl scan d = scan d cs.flatten := by
     intro cs
     induction cs with
